@@ -61,6 +61,7 @@ type interpreter struct {
 	m                *Machine
 	mapOrder         int                      // 0 insertion order, 1 decisions at listed sites, 2 decisions everywhere, 3 listed sites + one global insertion/reverse decision for all other library ranges
 	syncMaps         map[*value]*syncMapState // sync.Map contents by receiver
+	syncPools        map[*value][]value       // sync.Pool free lists by receiver
 	mapReverse       int                      // mode 3: 0 undecided, 1 insertion order, 2 reverse order
 	mapSites         map[string]bool          // function names (fn.String()) whose map ranges are order decisions
 	liftMemo         map[uintptr]value
